@@ -64,6 +64,9 @@ func c11ProofList(c *Check, rule string) {
 			// a suffix of the list, e.g. proofs[len(proofs)-1:]
 			if isLoadOfList(v.X) && v.Low != nil {
 				trims = append(trims, st)
+			} else if sl := backSlice(st.Val, SliceOpt{CallArgs: true}); sl.HasFieldNamed("RowNamespaceData", "Proof") && !sl.Has(isLoadOfList) {
+				// a list rebuilt from the current row's proof alone (slice literal)
+				trims = append(trims, st)
 			}
 		case *ssa.Call:
 			if bi, ok := v.Call.Value.(*ssa.Builtin); ok && bi.Name() == "append" && isLoadOfList(v.Call.Args[0]) {
